@@ -372,7 +372,7 @@ def diff_component(ctx, component, gen_args, classify, label=None, shrink=True, 
         if shrink:
             # a line where implementation and model agree and no oracle fired is not a finding of any class
             ops = shrink_case(component, ops, lambda c2, i2, io, mo: ((io != mo) and classify(c2, i2, io, mo) == key) or
-                              (line_oracle is not None and line_oracle(c2, i2, io.split(" ORACLE[", 1)[0]) == key), every_line=line_oracle is not None)
+                              (line_oracle is not None and _safe_oracle(line_oracle, c2, i2, io.split(" ORACLE[", 1)[0]) == key), every_line=line_oracle is not None)
         impl_lines, model_lines = replay_case(component, ops)
         if "ORACLE[" in iout:
             # implementation-vs-oracle failure: reported apart from model disagreements
@@ -563,6 +563,14 @@ def run_property(prop, tier, seed, replay):
     if replay:
         return mod.replay(ctx, json.load(open(replay))) if hasattr(mod, "replay") else generic_replay(ctx, json.load(open(replay)))
     return mod.run(ctx)
+
+
+def _safe_oracle(oracle, case, idx, out):
+    """a candidate produced while shrinking can be malformed (operations without an answer): an oracle that cannot parse it says: not this class"""
+    try:
+        return oracle(case, idx, out)
+    except Exception:
+        return None
 
 
 def generic_replay(ctx, obj):
